@@ -12,7 +12,7 @@
     check comes with the entries it evicted (and whether it stored the item),
     and a history may also remove any entries between two checks. *)
 From Coq Require Import ZArith NArith List Bool.
-From AGH Require Import Base.Run.
+From AGH Require Import Base.Run Base.Bytes.
 Import ListNotations.
 
 Definition hash := bytes.
@@ -276,3 +276,13 @@ End HashPrefix.
     every hash whose prefix was asked (hex, one per TXT string). *)
 Definition db_service (db : list hash) (asked : list prefix) : option (list bytes) :=
   Some (map hex_of (filter (fun h => mem_hash (prefix_of h) asked) db)).
+
+(** ** The caller: [DNSFilter.CheckHost] lower-cases the name of the request
+    before the safe-browsing and the parental-control checker see it, whether
+    or not rule-list filtering is enabled for the request. *)
+Definition caller_name (host : bytes) : bytes := lower host.
+
+Definition check_host (sha : bytes -> hash) (pubsuf : bytes -> bytes * bool) (suffix : bytes)
+    (cache_time : Z) (svc : list prefix -> option (list bytes)) (order : list prefix)
+    (evs : list set_ev) (now : Z) (spelled : bytes) (c : cache) : cache * check_out :=
+  check sha pubsuf suffix cache_time svc order evs now (caller_name spelled) c.
